@@ -263,9 +263,9 @@ func asmVariants() []asmVariant {
 type asmHistory struct {
 	Variant  asmVariant `json:"variant"`
 	Ops      []string   `json:"ops"`
-	Capacity int        `json:"capacity"`        // buffer size; -1 = nil target
-	Split    int        `json:"split,omitempty"` // C16
-	Window   bool       `json:"window,omitempty"` // C19: the target is a window of a larger array (len < cap)
+	Capacity int        `json:"capacity"`            // buffer size; -1 = nil target
+	Split    int        `json:"split,omitempty"`     // C16
+	Window   bool       `json:"window,omitempty"`    // C19: the target is a window of a larger array (len < cap)
 	ViaClone bool       `json:"via_clone,omitempty"` // C19: the emitter under test is the Clone of a fresh emitter over the target
 }
 
